@@ -312,7 +312,7 @@ GPArray(void) gp_map99(const size_t a_size, const void* a,
 {
     const size_t src_length = gp_length99(src, src_ident, src_size);
     if (a_size < sizeof(GPAllocator))
-        return gp_arr_map(src_elem_size, *(GPArray(void)*)a, src, src_length, f);
+        return *(GPArray(void)*)a = gp_arr_map(src_elem_size, *(GPArray(void)*)a, src, src_length, f);
 
     GPArray(void) out = gp_arr_new(a, src_elem_size, src_length);
     return out = gp_arr_map(src_elem_size, out, src, src_length, f);
@@ -324,7 +324,7 @@ GPArray(void) gp_filter99(size_t a_size, const void* a,
 {
     const size_t src_length = gp_length99(src, src_ident, src_size);
     if (a_size < sizeof(GPAllocator))
-        return gp_arr_filter(src_elem_size, *(GPArray(void)*)a, src, src_length, f);
+        return *(GPArray(void)*)a = gp_arr_filter(src_elem_size, *(GPArray(void)*)a, src, src_length, f);
 
     GPArray(void) out = gp_arr_new(a, src_elem_size, src_length);
     return out = gp_arr_filter(src_elem_size, out, src, src_length, f);
